@@ -6,6 +6,7 @@ package state
 import (
 	"errors"
 	"fmt"
+	"sort"
 	"strings"
 
 	memdb "github.com/hashicorp/go-memdb"
@@ -1249,7 +1250,14 @@ func validateProposedConfigEntryInServiceGraph(
 		svcTopNodeType              = make(map[structs.ServiceID]string)
 		exportedServicesByPartition = make(map[string]map[structs.ServiceName]struct{})
 	)
+	// Visit the chains in a fixed order: the error of a rejected write is part of
+	// the raft apply result and must not depend on map iteration order.
+	chainIDs := make([]structs.ServiceID, 0, len(checkChains))
 	for serviceID := range checkChains {
+		chainIDs = append(chainIDs, serviceID)
+	}
+	sort.Slice(chainIDs, func(i, j int) bool { return chainIDs[i].String() < chainIDs[j].String() })
+	for _, serviceID := range chainIDs {
 		chain, err := testCompileDiscoveryChain(tx, serviceID.ID, overrides, &serviceID.EnterpriseMeta)
 		if err != nil {
 			return err
